@@ -724,6 +724,9 @@ def gen_store(pid, tier, seed, scale, rng, hists, stats):
         for _ in range((12 if q else 120) * scale):
             hists.append(sg.lazy_flood_history(rng))
             stats["lazy histories with several hundred pending actions"] += 1
+        for _ in range((40 if q else 400) * scale):
+            hists.append(sg.lazy_chain_history(rng))
+            stats["lazy cascades 5 to 12 levels deep"] += 1
     if pid in JOIN_PROPS:
         if pid in ("C07", "C13"):
             for _ in range((3 if q else 40) * scale):
